@@ -119,11 +119,18 @@ class AbstractAst:
             raise RTAMTException('STL specification if empty')
 
         #TODO How to handle sub-formulas?
-        entire_spec = (self.modular_spec + self.spec).rstrip()
-        
-        if not entire_spec.endswith(';'):
-            entire_spec += ';'
-        
+        entire_spec = self.modular_spec + self.spec
+
+        # the final ';' may be omitted: it is added unless the last token is one (white space and
+        # comments after the last token do not count, and a ';' inside a comment is not a token)
+        probe = self.antrlLexerType(InputStream(entire_spec))
+        if not isinstance(probe, Lexer):
+            raise RTAMTException('{} is not ANTRL4 Lexer'.format(probe.__class__.__name__))
+        probe.removeErrorListeners()
+        tokens = probe.getAllTokens()
+        if not tokens or tokens[-1].type != probe.SEMICOLON:
+            entire_spec += '\n;'
+
         input_stream = InputStream(entire_spec)
         lexer = self.antrlLexerType(input_stream)
         if not isinstance(lexer, Lexer):
